@@ -186,30 +186,36 @@ theorem pump_suffix {β : Type} (p : Params) (D : Dec β) (c : Ctx) (t : Tail) (
             rw [this]; simp only [List.cons_append]; rw [← hp]
       · exact ⟨[], by simp [pump, he, hi]⟩
 
-/-- the loop `for c.input.Len() == 0 { readRecord }` over the records of an honest peer, from a
-clean state: how the bytes owed by the queue are accounted for in each outcome -/
-theorem pump_plain (t : Tail) :
+/-- `readRecord` calls over the records of an honest peer, from a clean state (`stop = false`: the
+loop `for c.input.Len() == 0 { readRecord }`; `stop = true`: the single `readRecord` of the
+look-ahead): how the bytes owed by the queue are accounted for in each outcome -/
+theorem pump_plain (t : Tail) (stop : Bool) :
     ∀ (ws : List (Wire Bytes)) (s : RxState), s.err = none → s.input = [] →
-      ((pump P plainDec Ctx.established t false s ws).2.2 = .filled →
-        (pump P plainDec Ctx.established t false s ws).1.err = none ∧
+      ((pump P plainDec Ctx.established t stop s ws).2.2 = .filled →
+        (pump P plainDec Ctx.established t stop s ws).1.err = none ∧
         ∀ tl, appOf (recs ws ++ tl) =
-                (pump P plainDec Ctx.established t false s ws).1.input ++
-                  appOf (recs (pump P plainDec Ctx.established t false s ws).2.1 ++ tl) ∧
-              closedQ (recs ws ++ tl) = closedQ (recs (pump P plainDec Ctx.established t false s ws).2.1 ++ tl)) ∧
-      ((pump P plainDec Ctx.established t false s ws).2.2 = .blocked →
-        (pump P plainDec Ctx.established t false s ws).1.err = none ∧
-        (pump P plainDec Ctx.established t false s ws).1.input = [] ∧
-        (pump P plainDec Ctx.established t false s ws).2.1 = [] ∧
+                (pump P plainDec Ctx.established t stop s ws).1.input ++
+                  appOf (recs (pump P plainDec Ctx.established t stop s ws).2.1 ++ tl) ∧
+              closedQ (recs ws ++ tl) = closedQ (recs (pump P plainDec Ctx.established t stop s ws).2.1 ++ tl)) ∧
+      ((pump P plainDec Ctx.established t stop s ws).2.2 = .blocked →
+        (pump P plainDec Ctx.established t stop s ws).1.err = none ∧
+        (pump P plainDec Ctx.established t stop s ws).1.input = [] ∧
+        (pump P plainDec Ctx.established t stop s ws).2.1 = [] ∧
         ∀ tl, appOf (recs ws ++ tl) = appOf tl ∧ closedQ (recs ws ++ tl) = closedQ tl) ∧
-      ((pump P plainDec Ctx.established t false s ws).2.2 = .err .eof →
+      ((pump P plainDec Ctx.established t stop s ws).2.2 = .err .eof →
         ((∃ w ∈ ws, isCN w = true) ∧ ∀ tl, appOf (recs ws ++ tl) = []) ∨
         (t.part = none ∧ t.closed = true ∧ ∀ tl, appOf (recs ws ++ tl) = appOf tl)) ∧
-      (pump P plainDec Ctx.established t false s ws).2.2 ≠ .nil := by
+      ((pump P plainDec Ctx.established t stop s ws).2.2 = .nil →
+        stop = true ∧
+        (pump P plainDec Ctx.established t stop s ws).1.err = none ∧
+        (pump P plainDec Ctx.established t stop s ws).1.input = [] ∧
+        ∀ tl, appOf (recs ws ++ tl) = appOf (recs (pump P plainDec Ctx.established t stop s ws).2.1 ++ tl) ∧
+              closedQ (recs ws ++ tl) = closedQ (recs (pump P plainDec Ctx.established t stop s ws).2.1 ++ tl)) := by
   intro ws
   induction ws with
   | nil =>
     intro s he hi
-    have hp' : pump P plainDec Ctx.established t false s [] =
+    have hp' : pump P plainDec Ctx.established t stop s [] =
         ((atTail P Ctx.established s t).1, [], (atTail P Ctx.established s t).2) := by simp [pump, he]
     rw [hp']
     obtain ⟨h0, h1⟩ := atTail_shape P Ctx.established s t
@@ -226,9 +232,10 @@ theorem pump_plain (t : Tail) :
       right
       obtain ⟨a, b⟩ := atTail_eof s t h
       exact ⟨a, b, fun tl => by simp [recs]⟩
-    · rcases h1 with ⟨hb, _⟩ | ⟨e, h2, _⟩
-      · simp only; rw [hb]; intro h; cases h
-      · simp only; rw [h2]; intro h; cases h
+    · intro h
+      rcases h1 with ⟨hb, _⟩ | ⟨e, h2, _⟩
+      · simp only at h; rw [hb] at h; cases h
+      · simp only at h; rw [h2] at h; cases h
   | cons w ws ih =>
     intro s he hi
     obtain ⟨hin, hcase⟩ := rx_plain s w
@@ -238,7 +245,7 @@ theorem pump_plain (t : Tail) :
     have hi' : s'.input = [] := by rw [hin, hi]
     rcases hcase with ⟨e, ho, hs', hcn⟩ | ⟨ho, hs', hncn, hcontrib, hne⟩ | ⟨ho, hs', hncn, hcontrib⟩
     · subst ho
-      have : pump P plainDec Ctx.established t false s (w :: ws) = (s', ws, .err e) := by simp [pump, he, hi, hr]
+      have : pump P plainDec Ctx.established t stop s (w :: ws) = (s', ws, .err e) := by simp [pump, he, hi, hr]
       rw [this]
       refine ⟨(by intro h; cases h), (by intro h; cases h), ?_, (by intro h; cases h)⟩
       intro h
@@ -247,7 +254,7 @@ theorem pump_plain (t : Tail) :
       refine ⟨⟨w, by simp, hcn this⟩, fun tl => ?_⟩
       simp [recs, appOf_rec_cons, hcn this]
     · subst ho
-      have : pump P plainDec Ctx.established t false s (w :: ws) = ({ s' with input := w.body }, ws, .filled) := by
+      have : pump P plainDec Ctx.established t stop s (w :: ws) = ({ s' with input := w.body }, ws, .filled) := by
         simp [pump, he, hi, hr]
       rw [this]
       refine ⟨?_, (by intro h; cases h), (by intro h; cases h), (by intro h; cases h)⟩
@@ -255,27 +262,42 @@ theorem pump_plain (t : Tail) :
       refine ⟨by simp only; rw [hs', he], fun tl => ?_⟩
       simp [recs, appOf_rec_cons, hncn, hcontrib, closedQ_cons, terminal]
     · have hs'' : s'.err = none := by rw [hs', he]
-      have heq : pump P plainDec Ctx.established t false s (w :: ws) = pump P plainDec Ctx.established t false s' ws := by
-        rcases ho with ho | ho <;> (subst ho; simp [pump, he, hi, hr])
-      rw [heq]
-      obtain ⟨a, b, c', d⟩ := ih s' hs'' hi'
       have hpre : ∀ tl, appOf (recs (w :: ws) ++ tl) = appOf (recs ws ++ tl) ∧
           closedQ (recs (w :: ws) ++ tl) = closedQ (recs ws ++ tl) := by
         intro tl
         simp [recs, appOf_rec_cons, hncn, hcontrib, closedQ_cons, terminal]
-      refine ⟨?_, ?_, ?_, d⟩
-      · intro h
-        obtain ⟨a1, a2⟩ := a h
-        exact ⟨a1, fun tl => by rw [(hpre tl).1, (hpre tl).2]; exact a2 tl⟩
-      · intro h
-        obtain ⟨b1, b2, b3, b4⟩ := b h
-        exact ⟨b1, b2, b3, fun tl => by rw [(hpre tl).1, (hpre tl).2]; exact b4 tl⟩
-      · intro h
-        rcases c' h with ⟨⟨w', hw', hcn'⟩, h2⟩ | ⟨h1, h2, h3⟩
-        · left
-          exact ⟨⟨w', List.mem_cons_of_mem _ hw', hcn'⟩, fun tl => by rw [(hpre tl).1]; exact h2 tl⟩
-        · right
-          exact ⟨h1, h2, fun tl => by rw [(hpre tl).1]; exact h3 tl⟩
+      -- the record is skipped and the same call goes on with the next one, or (handshake bytes) the
+      -- single `readRecord` of the look-ahead returns nil
+      have hsplit : pump P plainDec Ctx.established t stop s (w :: ws) = pump P plainDec Ctx.established t stop s' ws ∨
+          (stop = true ∧ pump P plainDec Ctx.established t stop s (w :: ws) = (s', ws, .nil)) := by
+        rcases ho with ho | ho
+        · subst ho; left; simp [pump, he, hi, hr]
+        · subst ho
+          cases stop with
+          | false => left; simp [pump, he, hi, hr]
+          | true => right; exact ⟨rfl, by simp [pump, he, hi, hr]⟩
+      rcases hsplit with heq | ⟨hst, heq⟩
+      · rw [heq]
+        obtain ⟨a, b, c', d⟩ := ih s' hs'' hi'
+        refine ⟨?_, ?_, ?_, ?_⟩
+        · intro h
+          obtain ⟨a1, a2⟩ := a h
+          exact ⟨a1, fun tl => by rw [(hpre tl).1, (hpre tl).2]; exact a2 tl⟩
+        · intro h
+          obtain ⟨b1, b2, b3, b4⟩ := b h
+          exact ⟨b1, b2, b3, fun tl => by rw [(hpre tl).1, (hpre tl).2]; exact b4 tl⟩
+        · intro h
+          rcases c' h with ⟨⟨w', hw', hcn'⟩, h2⟩ | ⟨h1, h2, h3⟩
+          · left
+            exact ⟨⟨w', List.mem_cons_of_mem _ hw', hcn'⟩, fun tl => by rw [(hpre tl).1]; exact h2 tl⟩
+          · right
+            exact ⟨h1, h2, fun tl => by rw [(hpre tl).1]; exact h3 tl⟩
+        · intro h
+          obtain ⟨d1, d2, d3, d4⟩ := d h
+          exact ⟨d1, d2, d3, fun tl => by rw [(hpre tl).1, (hpre tl).2]; exact d4 tl⟩
+      · rw [heq]
+        exact ⟨(by intro h; cases h), (by intro h; cases h), (by intro h; cases h),
+          fun _ => ⟨hst, hs'', hi', hpre⟩⟩
 
 /-- one `Conn.Read` of the record layer (no look-ahead) over the records of an honest peer -/
 theorem readCall_plain (t : Tail) (s : RxState) (ws : List (Wire Bytes)) (n : Nat) (hn : n ≠ 0)
@@ -309,12 +331,12 @@ theorem readCall_plain (t : Tail) (s : RxState) (ws : List (Wire Bytes)) (n : Na
       refine ⟨⟨[], rfl⟩, Or.inr (Or.inr ⟨e, rfl, he, ?_⟩)⟩
       intro h; subst h; exact absurd he hne
     | none =>
-      obtain ⟨p1, p2, p3, p4⟩ := pump_plain t ws s he hi
+      obtain ⟨p1, p2, p3, p4⟩ := pump_plain t false ws s he hi
       generalize pump P plainDec Ctx.established t false s ws = r at l1 l2 l3 hsuf p1 p2 p3 p4
       obtain ⟨s1, ws1, st⟩ := r
       simp only at l1 l2 l3 hsuf p1 p2 p3 p4
       cases st with
-      | nil => exact absurd rfl p4
+      | nil => exact absurd (p4 rfl).1 (by simp)
       | filled =>
         obtain ⟨a1, a2⟩ := p1 rfl
         refine ⟨hsuf, Or.inl ⟨s1.input.take n, by simp, a1, fun tl => ?_⟩⟩
@@ -333,6 +355,137 @@ theorem readCall_plain (t : Tail) (s : RxState) (ws : List (Wire Bytes)) (n : Na
   · simp only [ne_eq, hi, not_false_eq_true, if_true]
     refine ⟨⟨[], by simp⟩, Or.inl ⟨s.input.take n, by simp, by simp, fun tl => ⟨?_, by simp⟩⟩⟩
     rw [List.take_append_drop]
+
+/-- the close-notify look-ahead over the records of an honest peer: it hands back the bytes `out`
+already taken, and whatever its single `readRecord` consumed is accounted for -/
+theorem lookAhead_plain (t : Tail) (pk : Bool) (s : RxState) (ws : List (Wire Bytes)) (out : Bytes)
+    (hne : s.err ≠ some .eof) :
+    (∃ pre, ws = pre ++ (lookAhead t pk s ws out).1.2) ∧
+    (((lookAhead t pk s ws out).2 = .ok out ∧ (lookAhead t pk s ws out).1.1.err = s.err ∧
+        ∀ tl, s.input ++ appOf (recs ws ++ tl) =
+                (lookAhead t pk s ws out).1.1.input ++ appOf (recs (lookAhead t pk s ws out).1.2 ++ tl) ∧
+              closedQ (recs ws ++ tl) = closedQ (recs (lookAhead t pk s ws out).1.2 ++ tl)) ∨
+     ((lookAhead t pk s ws out).2 = .blocked out ∧ s.err = none ∧
+        (lookAhead t pk s ws out).1.1.err = none ∧ (lookAhead t pk s ws out).1.1.input = [] ∧
+        (lookAhead t pk s ws out).1.2 = [] ∧
+        ∀ tl, s.input ++ appOf (recs ws ++ tl) = appOf tl ∧ closedQ (recs ws ++ tl) = closedQ tl) ∨
+     (∃ e, (lookAhead t pk s ws out).2 = .okErr out e ∧ (lookAhead t pk s ws out).1.1.err = some e ∧
+        (e = .eof → s.err = none ∧
+          (((∃ w ∈ ws, isCN w = true) ∧ ∀ tl, s.input ++ appOf (recs ws ++ tl) = []) ∨
+           (t.part = none ∧ t.closed = true ∧ ∀ tl, s.input ++ appOf (recs ws ++ tl) = appOf tl))))) := by
+  unfold lookAhead
+  by_cases hc : (decide (out ≠ []) && s.input == [] && pk) = true
+  · simp only [hc, if_true]
+    have hi : s.input = [] := by
+      simp only [Bool.and_eq_true, beq_iff_eq] at hc; exact hc.1.2
+    obtain ⟨l1, l2, l3⟩ := pump_latch P plainDec Ctx.established t true ws s hi
+    have hsuf := pump_suffix P plainDec Ctx.established t true ws s
+    cases he : s.err with
+    | some e =>
+      rw [l3 e he]
+      refine ⟨⟨[], rfl⟩, Or.inr (Or.inr ⟨e, rfl, he, ?_⟩)⟩
+      intro h; subst h; exact absurd he hne
+    | none =>
+      obtain ⟨p1, p2, p3, p4⟩ := pump_plain t true ws s he hi
+      generalize pump P plainDec Ctx.established t true s ws = r at l1 l2 l3 hsuf p1 p2 p3 p4
+      obtain ⟨s1, ws1, st⟩ := r
+      simp only at l1 l2 l3 hsuf p1 p2 p3 p4
+      cases st with
+      | nil =>
+        obtain ⟨_, a1, a2, a3⟩ := p4 rfl
+        refine ⟨hsuf, Or.inl ⟨rfl, a1, fun tl => ?_⟩⟩
+        simp only [hi, a2, List.nil_append]; exact a3 tl
+      | filled =>
+        obtain ⟨a1, a2⟩ := p1 rfl
+        refine ⟨hsuf, Or.inl ⟨rfl, a1, fun tl => ?_⟩⟩
+        simp only [hi, List.nil_append]; exact a2 tl
+      | blocked =>
+        obtain ⟨a1, a2, a3, a4⟩ := p2 rfl
+        refine ⟨hsuf, Or.inr (Or.inl ⟨rfl, rfl, a1, a2, a3, fun tl => ?_⟩)⟩
+        simp only [hi, List.nil_append]; exact a4 tl
+      | err e =>
+        obtain ⟨a1, _⟩ := l1 e rfl
+        refine ⟨hsuf, Or.inr (Or.inr ⟨e, rfl, a1, ?_⟩)⟩
+        intro h; subst h
+        refine ⟨rfl, ?_⟩
+        simp only [hi, List.nil_append]; exact p3 rfl
+  · simp only [hc, Bool.false_eq_true, if_false]
+    refine ⟨⟨[], rfl⟩, Or.inl ?_⟩
+    simp
+
+/-- the record-layer part of one `Conn.Read` (fill, drain, look-ahead) over the records of an
+honest peer, whatever `c.rawInput` holds and however the transport segments the stream -/
+theorem readRec_plain (t : Tail) (seg : Seg) (raw : Nat) (tb : Bool) (s : RxState) (ws : List (Wire Bytes))
+    (n : Nat) (hn : n ≠ 0) (hne : s.err ≠ some .eof) :
+    (∃ pre, ws = pre ++ (readRec t seg raw tb s ws n).1.1.2) ∧
+    ((∃ d, (readRec t seg raw tb s ws n).1.2 = .ok d ∧
+        (readRec t seg raw tb s ws n).1.1.1.err = s.err ∧
+        ∀ tl, s.input ++ appOf (recs ws ++ tl) =
+                d ++ (readRec t seg raw tb s ws n).1.1.1.input ++
+                  appOf (recs (readRec t seg raw tb s ws n).1.1.2 ++ tl) ∧
+              closedQ (recs ws ++ tl) = closedQ (recs (readRec t seg raw tb s ws n).1.1.2 ++ tl)) ∨
+     (∃ d, (readRec t seg raw tb s ws n).1.2 = .blocked d ∧ s.err = none ∧
+        (readRec t seg raw tb s ws n).1.1.1.err = none ∧
+        (readRec t seg raw tb s ws n).1.1.1.input = [] ∧
+        (readRec t seg raw tb s ws n).1.1.2 = [] ∧
+        ∀ tl, s.input ++ appOf (recs ws ++ tl) = d ++ appOf tl ∧ closedQ (recs ws ++ tl) = closedQ tl) ∨
+     (∃ d e, (((readRec t seg raw tb s ws n).1.2 = .err e ∧ d = []) ∨
+              (readRec t seg raw tb s ws n).1.2 = .okErr d e) ∧
+        (readRec t seg raw tb s ws n).1.1.1.err = some e ∧
+        (e = .eof → s.err = none ∧
+          (((∃ w ∈ ws, isCN w = true) ∧ ∀ tl, s.input ++ appOf (recs ws ++ tl) = d) ∨
+           (t.part = none ∧ t.closed = true ∧ ∀ tl, s.input ++ appOf (recs ws ++ tl) = d ++ appOf tl))))) := by
+  obtain ⟨⟨pre, hpre⟩, hcases⟩ := readCall_plain t s ws n hn hne
+  unfold readRec
+  generalize readCall P plainDec Ctx.established t s ws n false = r1 at hpre hcases
+  obtain ⟨⟨s1, ws1⟩, res1⟩ := r1
+  simp only at hpre hcases ⊢
+  rcases hcases with ⟨d, hr, herr, hacc⟩ | ⟨hr, hse, hsi, herr, hinp, hws', hacc⟩ | ⟨e, hr, herr, heof⟩
+  · subst hr
+    simp only
+    generalize (decide (rawAfter seg raw (ws.length - ws1.length) ws1.length tb > 0) &&
+      nextWire ws1 t == some P.tAlert) = pk
+    have hne1 : s1.err ≠ some .eof := by rw [herr]; exact hne
+    obtain ⟨⟨pre2, hpre2⟩, hla⟩ := lookAhead_plain t pk s1 ws1 d hne1
+    generalize lookAhead t pk s1 ws1 d = la at hpre2 hla
+    obtain ⟨⟨s3, ws3⟩, res3⟩ := la
+    simp only at hpre2 hla ⊢
+    refine ⟨⟨pre ++ pre2, by rw [hpre, hpre2, List.append_assoc]⟩, ?_⟩
+    rcases hla with ⟨h1, h2, h3⟩ | ⟨h1, h2, h3, h4, h5, h6⟩ | ⟨e, h1, h2, h3⟩
+    · left
+      refine ⟨d, h1, by rw [h2, herr], fun tl => ?_⟩
+      obtain ⟨a1, a2⟩ := hacc tl
+      obtain ⟨b1, b2⟩ := h3 tl
+      refine ⟨?_, by rw [a2, b2]⟩
+      rw [a1, List.append_assoc, b1, List.append_assoc]
+    · right; left
+      refine ⟨d, h1, by rw [← herr]; exact h2, h3, h4, h5, fun tl => ?_⟩
+      obtain ⟨a1, a2⟩ := hacc tl
+      obtain ⟨b1, b2⟩ := h6 tl
+      exact ⟨by rw [a1, List.append_assoc, b1], by rw [a2, b2]⟩
+    · right; right
+      refine ⟨d, e, Or.inr h1, h2, fun he => ?_⟩
+      obtain ⟨g1, g2⟩ := h3 he
+      refine ⟨by rw [← herr]; exact g1, ?_⟩
+      rcases g2 with ⟨⟨w, hw, hcn⟩, g⟩ | ⟨t1, t2, g⟩
+      · left
+        refine ⟨⟨w, by rw [hpre]; exact List.mem_append_right _ hw, hcn⟩, fun tl => ?_⟩
+        rw [(hacc tl).1, List.append_assoc, g tl, List.append_nil]
+      · right
+        refine ⟨t1, t2, fun tl => ?_⟩
+        rw [(hacc tl).1, List.append_assoc, g tl]
+  · subst hr
+    simp only
+    refine ⟨⟨pre, hpre⟩, Or.inr (Or.inl ⟨[], rfl, hse, herr, hinp, hws', fun tl => ?_⟩)⟩
+    rw [hsi]; simpa using hacc tl
+  · subst hr
+    simp only
+    refine ⟨⟨pre, hpre⟩, Or.inr (Or.inr ⟨[], e, Or.inl ⟨rfl, rfl⟩, herr, fun he => ?_⟩)⟩
+    obtain ⟨g1, g2, g3⟩ := heof he
+    refine ⟨g1, ?_⟩
+    rcases g3 with ⟨hw, g⟩ | ⟨t1, t2, g⟩
+    · left; exact ⟨hw, fun tl => by rw [g2, g tl]; rfl⟩
+    · right; exact ⟨t1, t2, fun tl => by rw [g2]; simpa using g tl⟩
 
 /-! ### the queue of the connection -/
 
@@ -390,16 +543,34 @@ theorem mem_requeue_suffix (pre ws' : List (Wire Bytes)) (it : Option InItem) (r
   · exact Or.inl (Or.inr h)
   · exact Or.inr h
 
+theorem isEOF_okErr (d : Bytes) (e : ApiErr) : (Res.okErr d e).isEOF = false ↔ e ≠ .eof := by
+  cases e <;> simp [Res.isEOF]
+
+/-- the result of a call that did not get to the end: nothing, or the bytes already taken -/
+theorem blk_bytes (d : Bytes) (r0 : Res) (e : ApiErr) (h : r0.bytes = []) :
+    (if d = [] then r0 else Res.okErr d e).bytes = d := by
+  split
+  · rename_i hd; rw [h, hd]
+  · rfl
+
+theorem blk_isEOF (d : Bytes) (r0 : Res) (e : ApiErr) (h0 : r0.isEOF = false) (he : e ≠ .eof) :
+    (if d = [] then r0 else Res.okErr d e).isEOF = false := by
+  split
+  · exact h0
+  · exact (isEOF_okErr d e).mpr he
+
 /-- One `Read`, from a state in which no end-of-stream is latched: either it does not report
 end-of-stream, none gets latched, nothing appears in the queue, and (if the read side is still
-clean) every owed byte is accounted for; or it reports end-of-stream having nothing pending, with
-nothing more owed by the queue, and for a legitimate reason present in the queue. -/
+clean) every owed byte is accounted for; or it reports end-of-stream — alone, or together with the
+last bytes when the close-notify look-ahead found the peer's close_notify already buffered — and
+then the bytes it hands over are exactly what was pending plus everything the queue still owed,
+and a legitimate reason is present in the queue. -/
 theorem read_eofcases (c : Conn) (n : Nat) (h0 : NoEof c) :
     ((read c n).2.isEOF = false ∧ NoEof (read c n).1 ∧ (∀ x ∈ (read c n).1.queue, x ∈ c.queue) ∧
       (Live (read c n).1 → Live c ∧
         (read c n).2.bytes ++ (read c n).1.rx.input ++ appOf (read c n).1.queue = c.rx.input ++ appOf c.queue ∧
         closedQ (read c n).1.queue = closedQ c.queue)) ∨
-    ((read c n).2 = .err .eof ∧ Live c ∧ c.rx.input = [] ∧ appOf c.queue = [] ∧ CauseIn c.queue) := by
+    ((read c n).2.isEOF = true ∧ Live c ∧ (read c n).2.bytes = c.rx.input ++ appOf c.queue ∧ CauseIn c.queue) := by
   obtain ⟨n1, n2, n3⟩ := h0
   obtain ⟨f1, f2, f3, f4⟩ := handshake_eofframe c false
   obtain ⟨f4a, f4b⟩ := f4 n3
@@ -456,16 +627,17 @@ theorem read_eofcases (c : Conn) (n : Nat) (h0 : NoEof c) :
         simp only at hq ⊢
         have htc := tailOf_closed it
         generalize tailOf it = tl at htc
-        obtain ⟨⟨pre, hpre⟩, hcases⟩ := readCall_plain tl c1.rx ws n hn hno1.1
-        generalize hrcall : readCall P plainDec Ctx.established tl c1.rx ws n false = rc at hpre hcases
-        obtain ⟨⟨rx', ws'⟩, r⟩ := rc
+        generalize tailBytes it = tb
+        obtain ⟨⟨pre, hpre⟩, hcases⟩ := readRec_plain tl c1.seg c1.raw tb c1.rx ws n hn hno1.1
+        generalize hrcall : readRec tl c1.seg c1.raw tb c1.rx ws n = rc at hpre hcases
+        obtain ⟨⟨⟨rx', ws'⟩, r⟩, raw'⟩ := rc
         simp only at hpre hcases ⊢
         have hqc : c.queue = recs ws ++ (it.toList ++ rest) := by rw [← f3, ← hq, requeue_eq]
         have hmem : ∀ x ∈ requeue ws' it rest, x ∈ c.queue := by
           intro x hx'
           rw [← f3, ← hq, hpre]
           exact mem_requeue_suffix pre ws' it rest x hx'
-        rcases hcases with ⟨d, hr, herr, hacc⟩ | ⟨hr, hse, hsi, herr, hinp, hws', hacc⟩ | ⟨e, hr, herr, heof⟩
+        rcases hcases with ⟨d, hr, herr, hacc⟩ | ⟨d, hr, hse, herr, hinp, hws', hacc⟩ | ⟨d, e, hr, herr, heof⟩
         · -- bytes handed out
           subst hr
           left
@@ -475,22 +647,28 @@ theorem read_eofcases (c : Conn) (n : Nat) (h0 : NoEof c) :
           · simp only [Res.bytes, requeue_eq]
             rw [← f1, hqc, a1]
           · simp only [requeue_eq]; rw [hqc, a2]
-        · -- the transport has nothing more right now
+        · -- the transport has nothing more right now (possibly after bytes were taken out of `c.input`)
           subst hr
           obtain ⟨b1, b2⟩ := hacc (it.toList ++ rest)
+          have hacct : ∀ (r0 : Res) (e0 : ApiErr), r0.bytes = [] →
+              (if d = [] then r0 else Res.okErr d e0).bytes ++ rx'.input ++ appOf (requeue ws' it rest) =
+                c.rx.input ++ appOf c.queue := by
+            intro r0 e0 h0
+            rw [blk_bytes d r0 e0 h0]
+            simp only [requeue_eq, hinp, hws']
+            rw [← f1, hqc, b1]; simp [recs]
+          have hclq : closedQ (requeue ws' it rest) = closedQ c.queue := by
+            simp only [requeue_eq, hws']; rw [hqc, b2]; simp [recs]
           cases it with
           | none =>
             left
-            refine ⟨rfl, ⟨by simp [herr], by simp [hx], hno1.2.2⟩, hmem, fun h => ?_⟩
-            refine ⟨hlive1 ⟨hse, hx⟩, ?_, ?_⟩
-            · simp only [Res.bytes, requeue_eq, hinp, hws']
-              rw [← f1, hsi, hqc, b1]; simp [recs]
-            · simp only [requeue_eq, hws']; rw [hqc, b2]; simp [recs]
+            refine ⟨blk_isEOF d _ _ rfl (by simp), ⟨by simp [herr], by simp [hx], hno1.2.2⟩, hmem, fun h => ?_⟩
+            exact ⟨hlive1 ⟨hse, hx⟩, hacct _ _ rfl, hclq⟩
           | some i =>
             cases i with
             | tempErr =>
               left
-              refine ⟨by simp [Res.isEOF], ⟨by simp [herr], by simp [hx], hno1.2.2⟩, ?_, fun h => ?_⟩
+              refine ⟨blk_isEOF d _ _ rfl (by simp), ⟨by simp [herr], by simp [hx], hno1.2.2⟩, ?_, fun h => ?_⟩
               · intro x hx'
                 apply hmem
                 simp only [requeue_eq, List.mem_append, Option.toList] at hx' ⊢
@@ -499,49 +677,58 @@ theorem read_eofcases (c : Conn) (n : Nat) (h0 : NoEof c) :
                 · simp at h
                 · exact Or.inr (Or.inr h)
               · refine ⟨hlive1 ⟨hse, hx⟩, ?_, ?_⟩
-                · simp only [Res.bytes, requeue_eq, hinp, hws', if_true]
-                  rw [← f1, hsi, hqc, b1]; simp [recs, appOf]
+                · rw [blk_bytes d _ _ rfl]
+                  simp only [requeue_eq, hinp, hws']
+                  rw [← f1, hqc, b1]; simp [recs, appOf]
                 · simp only [requeue_eq, hws']; rw [hqc, b2]; simp [recs, closedQ, terminal]
             | permErr =>
               left
-              refine ⟨by simp [Res.isEOF], ⟨by simp [herr], by simp, hno1.2.2⟩, hmem, fun h => ?_⟩
+              refine ⟨blk_isEOF d _ _ rfl (by simp), ⟨by simp [herr], by simp, hno1.2.2⟩, hmem, fun h => ?_⟩
               exact absurd h.2 (by simp)
             | record w =>
               left
-              refine ⟨rfl, ⟨by simp [herr], by simp [hx], hno1.2.2⟩, hmem, fun h => ?_⟩
-              refine ⟨hlive1 ⟨hse, hx⟩, ?_, ?_⟩
-              · simp only [Res.bytes, requeue_eq, hinp, hws']
-                rw [← f1, hsi, hqc, b1]; simp [recs]
-              · simp only [requeue_eq, hws']; rw [hqc, b2]; simp [recs]
+              refine ⟨blk_isEOF d _ _ rfl (by simp), ⟨by simp [herr], by simp [hx], hno1.2.2⟩, hmem, fun h => ?_⟩
+              exact ⟨hlive1 ⟨hse, hx⟩, hacct _ _ rfl, hclq⟩
             | eof pt =>
               left
-              refine ⟨rfl, ⟨by simp [herr], by simp [hx], hno1.2.2⟩, hmem, fun h => ?_⟩
-              refine ⟨hlive1 ⟨hse, hx⟩, ?_, ?_⟩
-              · simp only [Res.bytes, requeue_eq, hinp, hws']
-                rw [← f1, hsi, hqc, b1]; simp [recs]
-              · simp only [requeue_eq, hws']; rw [hqc, b2]; simp [recs]
-        · -- an error
-          subst hr
+              refine ⟨blk_isEOF d _ _ rfl (by simp), ⟨by simp [herr], by simp [hx], hno1.2.2⟩, hmem, fun h => ?_⟩
+              exact ⟨hlive1 ⟨hse, hx⟩, hacct _ _ rfl, hclq⟩
+        · -- an error, alone or with the last bytes
           by_cases he : e = .eof
           · subst he
             right
-            obtain ⟨g1, g2, g3⟩ := heof rfl
-            refine ⟨by simp [ofRx], hlive1 ⟨g1, hx⟩, by rw [← f1]; exact g2, ?_, ?_⟩
-            · rw [hqc]
+            obtain ⟨g1, g3⟩ := heof rfl
+            have hb : c1.rx.input ++ appOf (recs ws ++ (it.toList ++ rest)) = d := by
               rcases g3 with ⟨_, h2⟩ | ⟨t1, t2, h3⟩
               · exact h2 _
               · have := htc t1 t2; subst this
                 rw [h3]; simp [appOf]
-            · rw [hqc]
+            have hcause : CauseIn c.queue := by
+              rw [hqc]
               rcases g3 with ⟨⟨w, hw, hcn⟩, _⟩ | ⟨t1, t2, _⟩
               · left; exact ⟨w, by simp [recs, hw], hcn⟩
               · right; have := htc t1 t2; subst this; simp
+            rcases hr with ⟨hr, hd⟩ | hr
+            · subst hr; subst hd
+              refine ⟨by simp [Res.isEOF, ofRx], hlive1 ⟨g1, hx⟩, ?_, hcause⟩
+              simp only [Res.bytes]; rw [← f1, hqc, hb]
+            · subst hr
+              refine ⟨by simp [Res.isEOF, ofRx], hlive1 ⟨g1, hx⟩, ?_, hcause⟩
+              simp only [Res.bytes]; rw [← f1, hqc, hb]
           · left
-            refine ⟨(isEOF_err _).mpr (fun h => he ((ofRx_eof e).mp h)),
-              ⟨by simp only; rw [herr]; simpa using he, by simp [hx], hno1.2.2⟩, hmem, fun h => ?_⟩
-            have := h.1
-            simp only at this
-            rw [herr] at this; cases this
+            rcases hr with ⟨hr, hd⟩ | hr
+            · subst hr
+              refine ⟨(isEOF_err _).mpr (fun h => he ((ofRx_eof e).mp h)),
+                ⟨by simp only; rw [herr]; simpa using he, by simp [hx], hno1.2.2⟩, hmem, fun h => ?_⟩
+              have := h.1
+              simp only at this
+              rw [herr] at this; cases this
+            · subst hr
+              refine ⟨(isEOF_okErr _ _).mpr (fun h => he ((ofRx_eof e).mp h)),
+                ⟨by simp only; rw [herr]; simpa using he, by simp [hx], hno1.2.2⟩, hmem, fun h => ?_⟩
+              have := h.1
+              simp only at this
+              rw [herr] at this; cases this
 
 /-! ### the other calls and the transport events -/
 
@@ -657,5 +844,180 @@ theorem step_other (c : Conn) (k : Call) (h1 : ∀ n, k ≠ .read n) (h2 : ∀ i
     all_goals first
       | exact ⟨rfl, rfl, rfl, fun h => h⟩
       | (simp_all; try (intro h; exact (d' h).1))
+
+/-! ### the guard "attempted to read record with pending application data" never fires -/
+
+theorem rx_ne_pending {β : Type} (p : Params) (D : Dec β) (c : Ctx) (s : RxState) (w : Wire β) :
+    (rx p D c s w).2 ≠ .err .internalPending := by
+  unfold rx
+  split
+  · rename_i r hr
+    obtain ⟨a, e⟩ := r
+    have := hdrCheck_header _ _ _ _ _ _ _ hr
+    subst this
+    cases a <;> simp [failHdr, fail, failWith]
+  · split
+    · simp [failAlert]
+    · rename_i data _
+      generalize hr : dispatch p c { s with seq := s.seq + 1 } w.typ data = r
+      simp [dispatch, failAlert, fail, failWith, retry] at hr
+      repeat' split at hr
+      all_goals (subst hr; simp)
+
+theorem atTail_ne_pending (p : Params) (c : Ctx) (s : RxState) (t : Tail) :
+    (atTail p c s t).2 ≠ .err .internalPending := by
+  unfold atTail
+  split
+  · split <;> simp
+  · split <;> simp
+  · split
+    · rename_i r hr
+      obtain ⟨a, e⟩ := r
+      have := hdrCheck_header _ _ _ _ _ _ _ hr
+      subst this
+      simp
+    · split <;> simp
+
+/-- `readRecord` entered with `c.input` drained never reports the pending-data guard -/
+theorem pump_ne_pending {β : Type} (p : Params) (D : Dec β) (c : Ctx) (t : Tail) (stop : Bool) :
+    ∀ (ws : List (Wire β)) (s : RxState), s.input = [] → s.err ≠ some .internalPending →
+      (pump p D c t stop s ws).2.2 ≠ .err .internalPending := by
+  intro ws
+  induction ws with
+  | nil =>
+    intro s hi hne
+    cases he : s.err with
+    | some e =>
+      have : pump p D c t stop s [] = (s, [], .err e) := by simp [pump, he]
+      rw [this]; intro h; cases h; exact hne he
+    | none =>
+      have hp' : pump p D c t stop s [] = ((atTail p c s t).1, [], (atTail p c s t).2) := by simp [pump, he]
+      rw [hp']; exact atTail_ne_pending p c s t
+  | cons w ws ih =>
+    intro s hi hne
+    cases he : s.err with
+    | some e =>
+      have : pump p D c t stop s (w :: ws) = (s, w :: ws, .err e) := by simp [pump, he]
+      rw [this]; intro h; cases h; exact hne he
+    | none =>
+      obtain ⟨hin, hsh⟩ := rx_shape p D c s w
+      have hnp := rx_ne_pending p D c s w
+      generalize hr : rx p D c s w = r at hin hsh hnp
+      obtain ⟨s', o⟩ := r
+      simp only at hin hsh hnp
+      have hi' : s'.input = [] := by rw [hin, hi]
+      have hne' : (∀ e, o ≠ .err e) → s'.err ≠ some .internalPending := by
+        intro h
+        rcases hsh with ⟨e, ho, _⟩ | ⟨_, hs'⟩
+        · exact absurd ho (h e)
+        · rw [hs', he]; simp
+      cases o with
+      | err e =>
+        have : pump p D c t stop s (w :: ws) = (s', ws, .err e) := by simp [pump, he, hi, hr]
+        rw [this]; intro h; cases h; exact hnp rfl
+      | data d =>
+        have : pump p D c t stop s (w :: ws) = ({ s' with input := d }, ws, .filled) := by simp [pump, he, hi, hr]
+        rw [this]; simp
+      | cont =>
+        have : pump p D c t stop s (w :: ws) = pump p D c t stop s' ws := by simp [pump, he, hi, hr]
+        rw [this]; exact ih s' hi' (hne' (by simp))
+      | hand =>
+        cases stop with
+        | true =>
+          have : pump p D c t true s (w :: ws) = (s', ws, .nil) := by simp [pump, he, hi, hr]
+          rw [this]; simp
+        | false =>
+          have : pump p D c t false s (w :: ws) = pump p D c t false s' ws := by simp [pump, he, hi, hr]
+          rw [this]; exact ih s' hi' (hne' (by simp))
+      | ccs =>
+        cases stop with
+        | true =>
+          have : pump p D c t true s (w :: ws) = (s', ws, .nil) := by simp [pump, he, hi, hr]
+          rw [this]; simp
+        | false =>
+          have : pump p D c t false s (w :: ws) = pump p D c t false s' ws := by simp [pump, he, hi, hr]
+          rw [this]; exact ih s' hi' (hne' (by simp))
+
+/-- … so it never latches it either -/
+theorem pump_err_ne_pending {β : Type} (p : Params) (D : Dec β) (c : Ctx) (t : Tail) (stop : Bool)
+    (ws : List (Wire β)) (s : RxState) (hi : s.input = []) (hne : s.err ≠ some .internalPending) :
+    (pump p D c t stop s ws).1.err ≠ some .internalPending := by
+  obtain ⟨h1, h2, h3⟩ := pump_latch p D c t stop ws s hi
+  have hr := pump_ne_pending p D c t stop ws s hi hne
+  intro hlat
+  cases hres : (pump p D c t stop s ws).2.2 with
+  | err e =>
+    have := (h1 e hres).1
+    rw [this] at hlat
+    cases hlat
+    exact hr hres
+  | filled => have := (h2 (by rw [hres]; simp)).2; rw [this] at hlat; cases hlat
+  | nil => have := (h2 (by rw [hres]; simp)).2; rw [this] at hlat; cases hlat
+  | blocked => have := (h2 (by rw [hres]; simp)).2; rw [this] at hlat; cases hlat
+
+/-- the latch after the fill-and-drain part of `Read`: untouched when `c.input` still had bytes
+(no `readRecord` runs), otherwise what the loop left -/
+theorem readCall_err {β : Type} (p : Params) (D : Dec β) (c : Ctx) (t : Tail)
+    (s : RxState) (ws : List (Wire β)) (n : Nat) :
+    (readCall p D c t s ws n false).1.1.err =
+      (if n = 0 ∨ s.input ≠ [] then s.err else (pump p D c t false s ws).1.err) := by
+  unfold readCall
+  by_cases hn : n = 0
+  · simp [hn]
+  simp only [hn, if_false, Bool.and_false, Bool.false_and, Bool.false_eq_true, false_or]
+  by_cases hi : s.input = []
+  · simp only [hi, ne_eq, not_true_eq_false, if_false]
+    generalize pump p D c t false s ws = r
+    obtain ⟨s1, ws1, st⟩ := r
+    cases st <;> simp
+  · simp [hi]
+
+theorem lookAhead_err (t : Tail) (pk : Bool) (s : RxState) (ws : List (Wire Bytes)) (out : Bytes) :
+    (lookAhead t pk s ws out).1.1.err = s.err ∨
+    (s.input = [] ∧ (lookAhead t pk s ws out).1.1.err = (pump P plainDec Ctx.established t true s ws).1.err) := by
+  unfold lookAhead
+  by_cases hc : (decide (out ≠ []) && s.input == [] && pk) = true
+  · right
+    have hi : s.input = [] := by
+      simp only [Bool.and_eq_true, beq_iff_eq] at hc; exact hc.1.2
+    simp only [hc, if_true]
+    refine ⟨hi, ?_⟩
+    generalize pump P plainDec Ctx.established t true s ws = r
+    obtain ⟨s1, ws1, st⟩ := r
+    cases st <;> simp
+  · left; simp only [hc, Bool.false_eq_true, if_false]
+
+/-- one `Read` of the record layer — fill, drain, look-ahead, in every segmentation of the
+transport and whatever `c.rawInput` holds — never latches the pending-data guard: `readRecord` is
+only ever entered with `c.input` drained -/
+theorem readRec_no_pending (t : Tail) (seg : Seg) (raw : Nat) (tb : Bool) (s : RxState) (ws : List (Wire Bytes))
+    (n : Nat) (hne : s.err ≠ some .internalPending) :
+    (readRec t seg raw tb s ws n).1.1.1.err ≠ some .internalPending := by
+  have h1 := readCall_err P plainDec Ctx.established t s ws n
+  have hp1 : (readCall P plainDec Ctx.established t s ws n false).1.1.err ≠ some .internalPending := by
+    rw [h1]
+    split
+    · exact hne
+    · rename_i hc
+      have hi : s.input = [] := by
+        by_cases hi : s.input = []
+        · exact hi
+        · exact absurd (Or.inr hi) hc
+      exact pump_err_ne_pending P plainDec Ctx.established t false ws s hi hne
+  unfold readRec
+  generalize readCall P plainDec Ctx.established t s ws n false = r1 at hp1
+  obtain ⟨⟨s1, ws1⟩, res1⟩ := r1
+  simp only at hp1 ⊢
+  cases res1 with
+  | ok out =>
+    simp only
+    generalize (decide (rawAfter seg raw (ws.length - ws1.length) ws1.length tb > 0) &&
+      nextWire ws1 t == some P.tAlert) = pk
+    rcases lookAhead_err t pk s1 ws1 out with h | ⟨hi, h⟩
+    · rw [h]; exact hp1
+    · rw [h]; exact pump_err_ne_pending P plainDec Ctx.established t true ws1 s1 hi hp1
+  | okErr d e => exact hp1
+  | err e => exact hp1
+  | blocked d => exact hp1
 
 end Gotlcp.Lemmas.ConnAPIEof
